@@ -1,5 +1,7 @@
 #!/usr/bin/env python3
-"""Self-validation: apply a source mutation to a scratch worktree, run a check against it, report.
+"""NOTE: runs the check from /verif itself, so evidence/ and lean/PV/Generated are rewritten for the mutated tree:
+re-run `tools/extract.py` and the affected checks on the clean tree afterwards (or use tools/confirm_seed.sh, which works in a clone).
+Self-validation: apply a source mutation to a scratch worktree, run a check against it, report.
 usage: selfval.py <worktree> <Cxx> <file> <old-snippet> <new-snippet> [--tier quick]
 or programmatic use via run_mutant()."""
 import os, subprocess, sys
